@@ -70,7 +70,9 @@ type Revision struct {
 	ObjStmNums    []uint32       `json:"objstm_nums,omitempty"`
 	// Object0 says whether an update section (not the first revision, which
 	// always has it) contains an entry for object 0: 0 = the Chooser decides
-	// (only if the revision frees something), 1 = always, 2 = never.
+	// (only if the revision frees something), 1 = always, 2 = never, 3 =
+	// always and (in a classic table) in a subsection "0 1" of its own, so
+	// that a following entry for object 1 starts a new subsection.
 	Object0 int `json:"object0,omitempty"`
 }
 
@@ -125,6 +127,8 @@ type TableSub struct {
 	Start uint32
 	Count int
 	First string // the 18 significant bytes of the first entry, e.g. "0000000000 65535 f"
+	// Entries holds the 18 significant bytes of every entry of the subsection.
+	Entries []string
 }
 
 // Result is the rendered file with the positions of its parts.
@@ -137,6 +141,12 @@ type Result struct {
 	TableSubs    []TableSub
 	XRefW        [][3]int // per revision: /W of its cross-reference stream ({0,0,0} for Table)
 	XRefWide     bool     // some cross-reference stream uses wider fields than necessary
+	// ObjStmTight counts the object streams whose first member starts on the
+	// byte after the last integer of the index (/First = length of the index);
+	// ObjStmAdjacent counts the members which follow their predecessor
+	// without white space.
+	ObjStmTight    int
+	ObjStmAdjacent int
 }
 
 type xent struct {
@@ -387,7 +397,7 @@ func (w *fileWriter) revision(ri int, rev *Revision, size *uint32, prev int, las
 		}
 		include := false
 		switch rev.Object0 {
-		case 1:
+		case 1, 3:
 			include = true
 		case 2:
 		default:
@@ -715,21 +725,31 @@ func (w *fileWriter) objStm(ri int, rev *Revision, it *bodyItem, setEnt func(uin
 	var body []byte
 	offsets := make([]int, len(it.members))
 	for i, n := range it.members {
+		text := RenderValue(rev.Ops[n].Value, c)
 		if i > 0 {
+			// white space is only needed where two regular characters (or
+			// the empty name "/" and a regular character) would meet
 			sep := &out{c: c}
-			sep.gap(true)
+			sep.gap(needSep(body, text))
+			if len(sep.buf) == 0 {
+				w.res.ObjStmAdjacent++
+			}
 			body = append(body, sep.buf...)
 		}
 		offsets[i] = len(body)
-		body = append(body, RenderValue(rev.Ops[n].Value, c)...)
+		body = append(body, text...)
 	}
 	hd := &out{c: c}
 	for i, n := range it.members {
 		hd.tok([]byte(strconv.FormatUint(uint64(n), 10)))
 		hd.tok([]byte(strconv.Itoa(offsets[i])))
 	}
-	hd.gap(true)
+	indexLen := len(hd.buf)
+	hd.gap(needSep(hd.buf, body))
 	first := len(hd.buf)
+	if first == indexLen && len(it.members) > 0 {
+		w.res.ObjStmTight++
+	}
 	data := append(hd.buf, body...)
 	dict := syntax.D("Type", syntax.N("ObjStm"), "N", syntax.I(int64(len(it.members))), "First", syntax.I(int64(first)))
 	enc, extra := w.encodeStream(data, 1+c.Intn(4), true)
@@ -749,6 +769,16 @@ func (w *fileWriter) objStm(ri int, rev *Revision, it *bodyItem, setEnt func(uin
 		setEnt(n, xent{2, int64(it.num), int64(i)}, rev.Kind != Table)
 	}
 	return nil
+}
+
+// needSep reports whether white space is required between the bytes written
+// so far and the next token.
+func needSep(before, next []byte) bool {
+	if len(before) == 0 || len(next) == 0 {
+		return false
+	}
+	last := before[len(before)-1]
+	return (syntax.IsRegular(last) || last == '/') && syntax.IsRegular(next[0])
 }
 
 // runs splits the sorted numbers into maximal contiguous runs, which are then
@@ -777,7 +807,11 @@ func (w *fileWriter) table(ri int, rev *Revision, ents map[uint32]xent, size uin
 	pos := w.off()
 	w.str("xref")
 	w.eol()
-	for _, run := range w.runs(sortedNums(ents), ri > 0) {
+	runs := w.runs(sortedNums(ents), ri > 0)
+	if ri > 0 && rev.Object0 == 3 && len(runs) > 0 && runs[0][0] == 0 && len(runs[0]) > 1 {
+		runs = append([][]uint32{runs[0][:1], runs[0][1:]}, runs[1:]...)
+	}
+	for _, run := range runs {
 		w.str(fmt.Sprintf("%d %d", run[0], len(run)))
 		w.eol()
 		for i, n := range run {
@@ -790,6 +824,8 @@ func (w *fileWriter) table(ri int, rev *Revision, ents map[uint32]xent, size uin
 			if i == 0 {
 				w.res.TableSubs = append(w.res.TableSubs, TableSub{Rev: ri, Start: run[0], Count: len(run), First: line})
 			}
+			ts := &w.res.TableSubs[len(w.res.TableSubs)-1]
+			ts.Entries = append(ts.Entries, line)
 			w.str(line)
 			switch c.Intn(3) {
 			case 0:
